@@ -174,21 +174,28 @@ def call_trace(task):
         n0 = len(cache) if cache is not None else 0
         v = orig(reads, read_counts, haplotypes, genotype_alleles, cache)
         hit = cache is not None and len(cache) == n0  # served without inserting (independent of the key format)
-        f = log_likelihood(task_reads, haps[np.sort(genotype_alleles)], read_counts=task_counts)
+        f = log_likelihood(cur["reads"], haps[np.sort(genotype_alleles)], read_counts=cur["counts"])
         if cache is not None:
-            events.append({"op": "dget", "key": [0, idx], "hit": bool(hit), "ret": q(v), "fresh": q(f)})
+            events.append({"op": "dget", "key": [cur["fit"], idx], "hit": bool(hit), "ret": q(v), "fresh": q(f)})
         return v
 
-    task_reads, task_counts = reads, counts
+    cur = {"reads": reads, "counts": counts, "fit": 0}
     CM.log_likelihood_alleles_cached = wrap
     try:
         with np.errstate(all="ignore"):
             m = CallingMCMC(ploidy=P, haplotypes=haps, inbreeding=task.get("F", 0.0), steps=task.get("steps", 12), chains=1,
                             random_seed=task["seed"], step_type=task.get("step_type", "Gibbs"))
-            tr = m.fit(reads, read_counts=counts)
-        for g, llk in zip(tr.genotypes[0], tr.llks[0]):
-            f = log_likelihood(reads, haps[np.sort(g)], read_counts=counts)
-            events.append({"op": "carried", "key": [int(x) for x in g], "v": q(float(llk)), "fresh": q(f)})
+            # history: the SAME model object is fitted to a second sample (other reads) afterwards; whatever is cached
+            # must still be the likelihood of the sample being fitted
+            for fit in (0, 1):
+                if fit == 1:
+                    r2 = rational_reads(rnd, task.get("n_reads", 5), N, [2] * N)
+                    c2 = rnd.randint(1, 4, size=len(r2)).astype(np.int64)
+                    cur.update(reads=r2, counts=c2, fit=1)
+                tr = m.fit(cur["reads"], read_counts=cur["counts"])
+                for g, llk in zip(tr.genotypes[0], tr.llks[0]):
+                    f = log_likelihood(cur["reads"], haps[np.sort(g)], read_counts=cur["counts"])
+                    events.append({"op": "carried", "key": [int(x) for x in g], "v": q(float(llk)), "fresh": q(f)})
     finally:
         CM.log_likelihood_alleles_cached = orig
     return {"header": {"L": 1, "B": 1, "init": 2, "max": 2, "kind": "call"}, "events": events}
